@@ -14,6 +14,7 @@ import (
 	golangproto "github.com/golang/protobuf/proto" //nolint
 	promv1 "github.com/prometheus/client_model/go"
 	"google.golang.org/protobuf/proto"
+	"google.golang.org/protobuf/runtime/protoimpl"
 	"google.golang.org/protobuf/types/descriptorpb"
 	"google.golang.org/protobuf/types/known/structpb"
 	"google.golang.org/protobuf/types/known/timestamppb"
@@ -32,6 +33,12 @@ func init() {
 			s.Yield(where)
 		}
 	}
+	// scheduling points inside the protobuf-go runtime (before its size-cache atomics)
+	protoimpl.VerifSetYield(func(where string) {
+		if s := active; s != nil {
+			s.Yield(where)
+		}
+	})
 }
 
 // marshalling operations that the property judges
@@ -133,6 +140,8 @@ type hist struct {
 	saved  [][]byte
 	judged int
 	warm   int // judged marshals performed while some cache was warm
+	prior  int // operations before the current one (mutations, sizes, marshals, unmarshals)
+	hist   int // judged marshals that had a non-empty history before them
 }
 
 func (h *hist) unjudged(what string, f func()) {
@@ -152,6 +161,7 @@ func (h *hist) unjudged(what string, f func()) {
 func (h *hist) opMutate(t *rapid.T) {
 	h.unjudged("mutate", func() {
 		d := corpus.Mutate(t, corpus.Wrap(h.m), 0)
+		h.prior++
 		h.w.Step("mutate: %s", d)
 	})
 }
@@ -200,6 +210,10 @@ func (h *hist) opMarshal(t *rapid.T) {
 	if cache0 > 0 {
 		h.warm++
 	}
+	if h.prior > 0 {
+		h.hist++
+	}
+	h.prior++
 	h.w.Step("%s -> %d bytes err=%v (cache before=%d)", opNames[op], len(got.b), got.err, cache0)
 	sig, detail := "", ""
 	switch {
@@ -319,7 +333,8 @@ func runHist(t *rapid.T, w *rep.Worker) {
 	})
 	w.Probes["judged_marshals"] += int64(h.judged)
 	w.Probes["judged_marshals_with_warm_cache"] += int64(h.warm)
-	if h.judged > 0 && h.warm > 0 {
+	w.Probes["judged_marshals_with_history"] += int64(h.hist)
+	if h.hist > 0 {
 		w.EndNontrivial()
 	}
 }
